@@ -27,7 +27,58 @@ COMPONENTS = {"real": REAL_BASE + ["Discover.discover/discover_single, _Discover
 SN_CHARS = "0123456789ABCDEFGHIJKLMNOPQRSTUVWXYZ"
 
 
+def run_two_loops(plan):
+    """Two discovery runs in one process, each under its own event loop (two asyncio.run() calls of a script, a
+    loop per test case): the second must report what the first did."""
+    res = Result()
+    reports = []
+    w = None
+    for rnd in range(plan.get("rounds", 2)):
+        w = World(seed=plan.get("seed", 0), max_iterations=20000)
+        if rnd > 0:
+            w.seams.same_process = True
+        w.seams.keep_process_state = True
+        from refmodel.device import RefDevice
+        for h in plan["hosts"]:
+            data = good_reply(2, h["device_id"], h["ip"], h["port"], h["sn"], h["name"])
+            w.net.add_udp_host(h["ip"], RefHost(h["ip"], [(h.get("delay", 0.05), 6445, data)]))
+            d = RefDevice(version=2, device_id=h["device_id"])
+            d.default_directive = {"lat": h.get("tcp_lat", 0.3)}
+            w.net.listen(h["ip"], h["port"], d)
+        out = {}
+
+        async def main(w):
+            o = await capture(w, w.ns.discover.Discover.discover(auto_connect=True))
+            out["o"] = o
+        try:
+            w.run(main)
+        except (SimDeadlock, SimStepLimit) as e:
+            res.fail(f"liveness: {type(e).__name__}", str(e))
+            break
+        o = out["o"]
+        if o.kind != "ok":
+            res.fail(f"discover raised {o.exc_type}", f"round {rnd + 1} in the same process: {o.exc!r}")
+            break
+        got = sorted((d.ip, d.id, bool(d.online)) for d in o.value)
+        want = sorted((h["ip"], h["device_id"], True) for h in plan["hosts"])
+        if got != want:
+            res.fail("set of reported addresses differs from the replying hosts", f"round {rnd + 1}: {got[:3]}... vs {want[:3]}...")
+            break
+        reports.append(got)
+    # leave the process clean for the next run
+    from simkit import seams as _seams
+    _seams._reset_class_state()
+    res.take(w)
+    res.fired["second_event_loop_in_one_process"] = 1
+    res.fired["auto_connect_v2"] = len(plan["hosts"])
+    res.key = ("two_loops", len(plan["hosts"]), plan.get("seed"))
+    res.nontrivial = True
+    return res
+
+
 def run(plan):
+    if plan.get("mode") == "two_loops":
+        return run_two_loops(plan)
     w = World(seed=plan.get("seed", 0), max_iterations=5000)
     res = Result()
     hosts = {}
@@ -202,4 +253,17 @@ def space(tier):
                     h["name"] = "net_" + rng.choice(["ac", "AC"]) + "_" + h["name"].split("_", 2)[2]
         return p
     sp.add("random", 12000 if tier == "quick" else 1_500_000, rnd)
+
+    def two_loops(j, rng):
+        n = rng.choice([2, 5, 9, 10, 12, 17, 24])
+        hosts = []
+        for i in range(n):
+            h = rand_host(rng, i, 0xAC, rng.random() < 0.5, 2)
+            h["name"] = "net_" + ("AC" if rng.random() < 0.5 else "ac") + "_" + "%04X" % rng.randrange(65536)
+            h["ip"] = f"192.168.9.{10 + i}"
+            h["delay"] = rng.choice([0.01, 0.05, 0.051])
+            h["tcp_lat"] = rng.choice([0.05, 0.3, 1.0])
+            hosts.append(h)
+        return {"mode": "two_loops", "hosts": hosts, "rounds": rng.choice([2, 3])}
+    sp.add("two_event_loops_in_one_process", 40 if tier == "quick" else 2000, two_loops)
     return sp
